@@ -45,6 +45,10 @@ package unary
 //@   atcall byteOffset sampleIdx == index.SpecPick(startApprox) || sampleIdx == index.SpecPick(startApprox) + nRemaining
 //@   # Stamp under AllowDiscontinuous is not specified: the stamp a chunk ahead is not before the reference (assumed)
 //@   assume_after "endApprox, err := i.idx.Stamp(" err == nil ==> endApprox.Lower >= i.view.Start
+//@   # The view reported for the step ends at the LOWER stamp approximation while the chunk read below
+//@   # is counted in samples: the two only agree when the approximation is exact. KNOWN FINDING: for
+//@   # a view start that is not a stored sample the view is one sample short of what is returned.
+//@   assert_before "i.view.End = endApprox.Lower" endApprox.Lower == endApprox.Upper
 //@   modifies i, i.internal
 //@   loop 0 modifies i, i.internal
 //@   loop 0 invariant i.bounds == old(i.bounds) && i.internal == old(i.internal) && i.idx == old(i.idx) && i.resolver == old(i.resolver) && wfIter(i) && autoReady(i)
